@@ -5,7 +5,9 @@ ID = 'C45'
 TECHNIQUE = ('path-sensitive forward dataflow over the code-generating methods (three-valued evaluation of the tracing / is_terminator tests, event sequences split into '
              'success, error and common-tail segments of the generated C function and by the emitted #if/#else lines); prime implicants of the path-sensitive decision function '
              '"return label reached without a return event" over normalised atomic tests; configuration-matrix evaluation of the '
-             'preprocessor conditions around the Profile.c macros; table agreement of guard event, state slot and fired event in the sys.monitoring block')
+             'preprocessor conditions around the Profile.c macros; table agreement of guard event, state slot and fired event in the sys.monitoring block; '
+             'role agreement between the kinds of emitted arguments and the use of the macro parameters (per configuration, helper functions followed); polarity analysis of nogil flags; '
+             'typestate of the line-trace window; sibling agreement of the nogil / GIL branches and three-valued reachability of the delivering calls in the macro bodies')
 DECIDES = ('C45-GUARD: every put_trace_* call and every raw __Pyx_Trace*/__Pyx_PyMonitoring_*/__Pyx_TurnOffSysMonitoring* emission in Cython/Compiler is dominated by a test '
            'that implies profile or linetrace (is_tracing(), directives[...] or a local alias of them). '
            'C45-PAIR: in every function that emits put_trace_start (FuncDefNode and GeneratorBodyDefNode.generate_function_definitions, ModuleNode.generate_module_init_func), '
@@ -20,10 +22,21 @@ DECIDES = ('C45-GUARD: every put_trace_* call and every raw __Pyx_Trace*/__Pyx_P
            'C45-M2: every trace macro the compiler emits (names and arities extracted path-sensitively from CCodeWriter.put_trace_* that are called, and from raw emissions) has '
            'exactly one definition in each of the 8 configurations of CYTHON_PROFILE x CYTHON_TRACE x CYTHON_USE_SYS_MONITORING, with the emitted arity (aliases followed). '
            'C45-EVT: __Pyx_Monitoring_Event_Index and __Pyx_MonitoringEventTypes are aligned position by position; in every sys.monitoring macro/helper the event named by '
-           'PyMonitoring_Fire<Event>Event equals the index of the state slot it is fired through and the event tested by __Pyx_IsTracing.')
+           'PyMonitoring_Fire<Event>Event equals the index of the state slot it is fired through and the event tested by __Pyx_IsTracing. '
+           'C45-ARGS: every argument of an emitted trace macro call that is an instruction offset (pos_to_offset), a line (pos[LINE]), an error exit (error_goto) or a nogil flag sits in '
+           'a macro parameter that the definition uses for that purpose in every configuration (offset slot / reported object of PyMonitoring_Fire*Event, PyCode_NewEmpty.firstlineno, '
+           'the flag whose branch acquires the GIL, the statement `goto_error;`; helper functions followed). '
+           'C45-NOGIL: every nogil flag computed from a gil_owned value (keyword nogil= of put_trace_*, the flag in __Pyx_TraceLine) is its negation. '
+           'C45-WINDOW: __Pyx_TraceLine is emitted only under funcstate.can_trace and only for markers whose recorded trace flag (second component stored by mark_pos from its own '
+           'parameter) is set; in each function emitting the start event no body code / tracing marker is emitted while can_trace is set before the start event or after the final '
+           'return event; the start event of a generator body lies behind the insertion point of the resume switch. '
+           'C45-BRANCH: in every macro/helper of Profile.c the nogil branch and the GIL branch make the same calls apart from GIL acquisition; the legacy macros reach their delivering '
+           'call exactly when __Pyx_use_tracing is set; the start event is reachable when the skip flag is 0; the trace and the profile callback of one helper get the same PyTrace_ kind. '
+           'C45-COUNT: events used by macros that plain functions execute lie below CyFunc_count, CyGen_count equals the table size, the function state array is declared with the '
+           'function count, every PyMonitoring_EnterScope passes the count of its array.')
 NOT_DECIDED = ('nesting of events across calls at run time; that the return events of explicit `return` statements and the default return never both execute (relies on '
-               'is_terminator being right); which lines get line events (can_trace windows, mark_pos); GIL handling inside the macros; the legacy-tracing helper functions '
-               '(__Pyx_TraceSetupAndCall, __Pyx_call_return_trace_func); exception events (RAISE/RERAISE/EXCEPTION_HANDLED) are only checked for their guard and slot/event '
+               'is_terminator being right); which statements call mark_pos at all; whether can_trace is reset before put_trace_exit when no marker follows (latent); GIL handling inside '
+               'the macros beyond branch symmetry; frame / code object set-up of __Pyx_TraceSetupAndCall; which monitoring event a statement kind must produce (RAISE vs RERAISE); exception events (RAISE/RERAISE/EXCEPTION_HANDLED) are only checked for their guard and slot/event '
                'agreement, not for pairing.')
 ASSUMPTIONS = ['the error segment of a generated function is what is emitted between put_label(<w>.error_label) and the end of the enclosing `if` (or the return label when emitted '
                'unconditionally); success code jumps over it', 'a CCodeWriter.put_trace_* method that is never called emits nothing']
@@ -70,6 +83,7 @@ MUTATIONS += [
     ('Cython/Compiler/Nodes.py', 'ReturnStatNode: `if self.return_type.is_void: code.put_goto(code.return_label); return` before the event', 'C45-RETCOND ...:no-event-when:self.return_type.is_void'),
     ('Cython/Compiler/Nodes.py', "ReturnStatNode: event only under directives['profile']", 'C45-RETCOND ...:no-event-when:always (configuration linetrace)'),
 ]
+# Fourth round: 26 breaking edits and 12 behaviour-preserving rewrites are kept as replayable patches under /verif/mutants/C45/<name>/ (see each meta.json).
 SILENT_EDITS = [   # behaviour-preserving, no new violation
     'ReturnStatNode: `tracing_on = profile or linetrace; if not (self.in_parallel or not tracing_on):` (De Morgan + local)  [C45-RETCOND]',
     'ReturnStatNode: `par = self.in_parallel; if par: pass / elif code.is_tracing():`  [C45-RETCOND]',
@@ -89,4 +103,5 @@ SILENT_EDITS = [   # behaviour-preserving, no new violation
 
 
 def run(ctx):
-    return [pC45.rule_guard(ctx), pC45.rule_pair(ctx), sC45.rule_return_conditions(ctx), pC45.rule_macros(ctx), pC45.rule_events(ctx)]
+    return [pC45.rule_guard(ctx), pC45.rule_pair(ctx), sC45.rule_return_conditions(ctx), pC45.rule_macros(ctx), pC45.rule_events(ctx),
+            sC45.rule_args(ctx), sC45.rule_nogil(ctx), sC45.rule_window(ctx), sC45.rule_branch(ctx), sC45.rule_count(ctx)]
